@@ -6,6 +6,7 @@ FILE = "xh_C02.py"
 FUNCTIONS = ["SSCChart.serialize", "SSCChart._parse", "SSCSimfile._parse", "BaseSimfile.serialize", "BaseCharts.serialize", "item_property('NOTES', alias='NOTES2')",
              "simfile.loads / _detect_ssc (autodetect obligation, real tokenizer, concrete values)"]
 ASSUMPTIONS = [
+    "escapes_real[...] obligations: exhaustive concrete enumeration with the REAL msdparser serializer and lexer (not solver-decided; the parameter-level obligations replace MSDParameter by a recorder and cannot see escaping)",
     "msdparser is the environment (StubParam recorder, see C01)",
     "object identity among equal strings is nondeterministic: each value is either a fresh symbolic string or the same object as the note data (alias bit); replay uses ''/one-character strings where CPython really aliases",
     "values <=2..3 characters, any Unicode; chart keys by symbolic index from 10 representatives; NOTES/NOTES2 at every position",
@@ -20,10 +21,14 @@ def obligations(tier):
         for nk in (False, True):
             obs.append(dict(name=f"chart3[npos={npos},notes2={nk}]", func="chart3", pre=f"npos == {npos} and nk == {nk}", timeout=T,
                             bounds="chart with 2 properties (keys by symbolic index from 10) + note data at a fixed position; values <=2 any Unicode, alias bits, second value may be None"))
-    for w in (False, True):
-        obs.append(dict(name=f"chart_multi[{w}]", func="chart_multi", pre=f"which == {w}", timeout=2 * T, bounds="ATTACKS/DISPLAYBPM on simfile and chart level, value <=3 symbolic (split on ':') or key-only (None) on either level"))
+    for w, ns, nc in [(w, ns, nc) for w in (False, True) for ns in (False, True) for nc in (False, True)]:
+        obs.append(dict(name=f"chart_multi[{w},simfile-level None={ns},chart-level None={nc}]", func="chart_multi", pre=f"which == {w} and ns == {ns} and nc == {nc}", timeout=2 * T, bounds="ATTACKS/DISPLAYBPM on simfile and chart level, value <=3 symbolic (split on ':') or key-only (None) on either level"))
     for r in range(8):
         obs.append(dict(name=f"simfile_props[k0%8=={r}]", func="simfile_props", pre=f"k0 % 8 == {r}", timeout=T, bounds="simfile key by symbolic index over the literal-derived key set, values <=3 (may be None), 0..2 charts"))
+    for op in range(11):
+        obs.append(dict(name=f"chart_edit_after_serialize[op{op}]", func="chart_edit_after_serialize", pre=f"op == {op}", timeout=T,
+                        bounds="a chart / the simfile mapping, possibly serialized once before, edited through one of 11 mapping operations (move_to_end, pop, popitem, setdefault, update, "
+                               "item assignment / deletion, clear-and-refill; key by symbolic index, value <=2), then the round trip on the object as it stands"))
     for npos in range(3):
         obs.append(dict(name=f"chart_from_str_path[npos={npos}]", func="chart_from_str_path", pre=f"npos == {npos}", timeout=T, bounds="stand-alone chart parsing stops at the note data"))
     obs.append(dict(name="blank_and_corpus", func="blank_and_corpus", timeout=T, bounds="blank SSC simfile + blank chart (also with empty note data), both SSC corpus files"))
@@ -42,9 +47,15 @@ def signature(ob, res):
 
 def replay(data):
     from vlib import xh
+    if data.get("func") == "ob_escapes":
+        from harness import escconf
+        return escconf.replay(data)
     return xh.replay("xh_C02", data)
 
 
 def main(tier):
-    return xhprop.main(PROP, tier, FILE, obligations(tier), FUNCTIONS, ASSUMPTIONS, OUTSIDE, signature, extra_chars=(1 if tier == "thorough" else 0),
+    from vlib import core
+    from harness import escconf
+    extra = core.run_obligations("harness.escconf", escconf.obligations("ssc"))
+    return xhprop.main(PROP, tier, FILE, obligations(tier), FUNCTIONS, ASSUMPTIONS, OUTSIDE, signature, extra_results=extra, extra_chars=(1 if tier == "thorough" else 0),
                        bounds="values <=2..3 characters, <=3 chart properties incl. note data at every position, <=2 charts")
